@@ -142,11 +142,11 @@ func TestVerifC19Concurrent(t *testing.T) {
 	}
 	nVariants := kit.Tier(4, len(variants))
 	ingesters := 6
-	perIngester := kit.Tier(1500, 12000)
-	feederMsgs := kit.Tier(1500, 12000)
-	accountOps := kit.Tier(20000, 200000)
-	keeperRounds := kit.Tier(40, 300)
-	minReports := kit.Tier(60, 400)
+	perIngester := kit.Tier(1500, 4000)
+	feederMsgs := kit.Tier(1500, 4000)
+	accountOps := kit.Tier(20000, 80000)
+	keeperRounds := kit.Tier(40, 100)
+	minReports := kit.Tier(60, 200)
 	if race {
 		perIngester, feederMsgs, accountOps, keeperRounds, minReports = perIngester/4, feederMsgs/4, accountOps/4, keeperRounds/2, minReports/2
 	}
